@@ -313,6 +313,7 @@ def run(ctx, tier, seed, shard, nshards):
         structural(ctx)
         constructor_cases(ctx)
         plain_attribute_cases(ctx)
+        metaclass_name_cases(ctx)
         for case in multi_base_matrix():
             D.run_one(ctx, case, judge, exclude=exclude, nontrivial=nontrivial)
         ctx.count("multi_base_matrix_cells", 7 * 64)
@@ -494,6 +495,55 @@ def plain_attribute_cases(ctx, only=None):
                          "%s: expected %r, got %r" % (label, want, got))
 
 
+def metaclass_name_cases(ctx, only=None):
+    """Members named like something the META-class offers (`register` and `mro` of ABCMeta/type, `__call__` - classes are
+    callable): the class hierarchy provides no such function, so a precondition on them is the start of a contract, and
+    a sub-class overriding them combines with that contract as for any other member."""
+    import icontract
+
+    for name in ("register", "mro", "__call__", "__subclasses__", "regular"):
+        if only and only != [name]:
+            continue
+        log = []
+
+        def pre(x):
+            log.append("pre")
+            return x > 0
+
+        def sub_pre(x):
+            log.append("sub-pre")
+            return x < -10
+
+        def body(self, x):
+            log.append("body")
+            return x
+
+        def sub_body(self, x):
+            log.append("sub-body")
+            return x
+
+        label = "method named %r with a precondition" % name
+        try:
+            Base = type(icontract.DBC)("Base", (icontract.DBC,), {name: icontract.require(pre)(body)})
+            Sub = type(icontract.DBC)("Sub", (Base,), {name: icontract.require(sub_pre)(sub_body)})
+            got = []
+            for cls, arg in ((Base, 1), (Base, -1), (Sub, 1), (Sub, -20), (Sub, -1)):
+                del log[:]
+                try:
+                    got.append((cls.__name__, arg, getattr(cls(), name)(arg), list(log)))
+                except icontract.ViolationError:
+                    got.append((cls.__name__, arg, "violation", list(log)))
+        except BaseException as e:  # noqa
+            got = ("definition failed", type(e).__name__, str(e)[:140])
+        want = [("Base", 1, 1, ["pre", "body"]), ("Base", -1, "violation", ["pre"]), ("Sub", 1, 1, ["pre", "sub-body"]),
+                ("Sub", -20, -20, ["pre", "sub-pre", "sub-body"]), ("Sub", -1, "violation", ["pre", "sub-pre"])]
+        ctx.case(["metaclass-name", name], name != "regular", sample={"directed": label, "outcome": str(got)[:160]})
+        ctx.count("directed:metaclass-name-cases")
+        if got != want:
+            ctx.fail("metaclass-name|%s" % ("regular" if name == "regular" else "meta"), {"metaclass_name_case": [name]},
+                     "%s (and an overriding sub-class weakening it): expected %r, got %r" % (label, want, got))
+
+
 def structural(ctx):
     """Inherited members that are not overridden are the provider's very function object, with its lists."""
     import icontract
@@ -541,6 +591,11 @@ def structural(ctx):
 
 
 def replay(ctx, case):
+    if case.get("metaclass_name_case"):
+        before = ctx.evaluations
+        metaclass_name_cases(ctx, only=case["metaclass_name_case"])
+        ctx.evaluations = before + 1
+        return
     if case.get("plain_attribute_case"):
         before = ctx.evaluations
         plain_attribute_cases(ctx, only=case["plain_attribute_case"])
